@@ -7,6 +7,7 @@ mod json;
 mod rng;
 mod sexpr;
 mod suites;
+mod walk;
 
 use std::io::Write;
 
